@@ -124,6 +124,31 @@ for g_ in ('SE3', 'RxSO3'):
     mk()
 
 
+@obligation('C12.dims.SO3.2x3', functions=[f'{BOPS}:cumops_', f'{BOPS}:cumops', f'{BOPS}:cumprod', f'{BOPS}:cumprod_', f'{LT}:LieTensor.cumprod', f'{LT}:LieTensor.cumprod_'],
+            max_paths=4, timeout=300)
+def dims(env):
+    """every dimension of a LieTensor with two batch axes of different sizes (lshape 2x3), addressed by its non-negative and by its negative
+    index (dims index the underlying tensor: -2 is the last batch axis, -3 the first): the fold runs along that axis, over its full length"""
+    op = env.load(OPS); pp = env.load('pypose'); T = env.T
+    g = 'SO3'
+    items = [[group_elem(env, g, f'X{i}{j}') for j in range(3)] for i in range(2)]
+    data = T.stack([T.stack(r, 0) for r in items], 0)                      # (2, 3, 4)
+    for left in (True, False):
+        tag = 'left' if left else 'right'
+        ref1 = T.stack([T.stack(seq_fold(op, g, items[i], left), 0) for i in range(2)], 0)                                  # along the axis of length 3
+        cols = [seq_fold(op, g, [items[0][j], items[1][j]], left) for j in range(3)]
+        ref0 = T.stack([T.stack([cols[j][i] for j in range(3)], 0) for i in range(2)], 0)                                   # along the axis of length 2
+        for dim, ref in ((1, ref1), (-2, ref1), (0, ref0), (-3, ref0)):
+            X = lie(pp, g, data.clone())
+            env.eq(f'{tag} cumprod(dim={dim}): ordered fold along that axis', raw(X.cumprod(dim, left)), ref)
+            env.eq(f'{tag} cumprod(dim={dim}): input untouched', raw(X), data)
+            Z = lie(pp, g, data.clone()); Z.cumprod_(dim, left)
+            env.eq(f'{tag} cumprod_(dim={dim}): input overwritten with the ordered fold', raw(Z), ref)
+    M = data[..., 0:2]                                                       # a plain tensor, last axis scanned too
+    acc = [M[..., 0], M[..., 0] * M[..., 1]]
+    env.eq('plain tensor, dim=-1: cummul along the last axis', env.load(BOPS).cummul(M, -1), T.stack(acc, -1))
+
+
 @bounded('C12.free_monoid_schedule', functions=[f'{BOPS}:cumops_', f'{BOPS}:cumops'])
 def free_monoid(rng, tier):
     """real code, real torch: every L in 1..N, dims of rank <= 3, left and right"""
